@@ -32,8 +32,14 @@ template struct frg::_redblack::tree_order_struct<wit::TNode, &wit::TNode::hook,
 template struct frg::_redblack::tree_crtp_struct<frg::_redblack::tree_order_struct<wit::TNode, &wit::TNode::hook, frg::null_aggregator>, wit::TNode, &wit::TNode::hook, frg::null_aggregator>;
 
 template struct frg::interval_tree<wit::INode, long, &wit::INode::lo, &wit::INode::hi, &wit::INode::rb, &wit::INode::ih>;
-template void wit::ITree::for_overlaps<wit::ICallback>(wit::ICallback, long, long);
-template void wit::ITree::for_overlaps<wit::ICallback>(wit::ICallback, long);
+// both query forms are instantiated by use, so that the unit reads them however they declare their bounds
+namespace wit {
+inline void use_overlaps(ITree &t, ICallback cb, long lb, long ub) {
+	t.for_overlaps(cb, lb, ub);
+	t.for_overlaps(cb, lb);
+}
+void (*use_overlaps_p)(ITree &, ICallback, long, long) = &use_overlaps;
+}
 template struct frg::_redblack::tree_crtp_struct<wit::ITree::binary_tree, wit::INode, &wit::INode::rb, wit::ITree::aggregator>;
 
 template struct frg::_pairing::pairing_heap<wit::HNode, frg::locate_member<wit::HNode, frg::pairing_heap_hook<wit::HNode>, &wit::HNode::hook>, wit::HCmp>;
